@@ -1,6 +1,7 @@
 import Rspirv.Model.BuilderHand
 import Rspirv.Generated.Builder
 import Driver.Load
+import Driver.Trav
 /-! `build` channel: the Builder model driven by the same `name/arg/...` calls as the harness -/
 open Rspirv Rspirv.Model
 
@@ -141,4 +142,67 @@ def respondBuild (ws : List String) : Option String :=
           | .panic _ => "panic"
           | _ => go s' (showBOut c o :: out) ts
     some (go s0 [] toks)
+  | _ => none
+
+/-! `buildrt` channel: build, assemble, load back, compare -/
+
+def wordBytes (w : Nat) : List Nat := [w % 256, w / 256 % 256, w / 65536 % 256, w / 16777216 % 256]
+
+/-- `Module::assemble` with the regenerated traversal/assembly orders -/
+def moduleWords (m : Module Inst) : List Nat := Rspirv.Props.C15.assemble assembleInst m
+
+/-- `dr::load_bytes`: the parser model feeding the loader model (a consumer that answers `error` when the loader
+rejects an instruction is modelled by stopping at the first loader error) -/
+def loadBytesModel (bytes : List Nat) : Except String (Module Inst) :=
+  let r := parse theTables (fun _ => .continue_) bytes
+  -- replay the delivered events into the loader; a loader error at instruction k means the real parse stops there
+  let rec feed (s : Option LState) : List Ev → Except String (Option LState)
+    | [] => .ok s
+    | .init :: t => feed s t
+    | .header h :: t => feed (some (LState.start h)) t
+    | .inst i :: t =>
+      match s with
+      | none => .error "internal"
+      | some st => match st.step theLTables i with
+        | .ok st' => feed (some st') t
+        | .error e => .error s!"ConsumerError:{showLErr e}"
+    | .fin :: t =>
+      match s with
+      | none => .error "internal"
+      | some st => match st.finalize with
+        | .ok _ => feed (some st) t
+        | .error e => .error s!"ConsumerError:{showLErr e}"
+  match feed none r.trace with
+  | .error e => .error e
+  | .ok s =>
+    match r.result with
+    | .ok _ => match s with
+      | some st => .ok st.module
+      | none => .error "internal"
+    | .err e => .error (showPErr e)
+    | .panic _ => .error "panic"
+
+def respondBuildRt (ws : List String) : Option String :=
+  match ws with
+  | "buildrt" :: rest =>
+    let toks := rest.filter (· != "")
+    let rec go (s : BState) (out : List String) : List String → String
+      | [] =>
+        let m := s.finish theBTables
+        let built := showModule m
+        let bytes := (moduleWords m).flatMap wordBytes
+        let loaded := match loadBytesModel bytes with
+          | .ok l => showModule l
+          | .error e => s!"load-error:{e}"
+        let verdict := if built == loaded then "same" else s!"differ loaded=[{loaded}]"
+        "ok " ++ " ".intercalate out.reverse ++ " | " ++ verdict ++ s!" | built=[{built}]"
+      | t :: ts =>
+        match readCall t with
+        | none => s!"bad-request {t}"
+        | some c =>
+          let (s', o) := s.step theBTables c
+          match o with
+          | .panic _ => "panic"
+          | _ => go s' (showBOut c o :: out) ts
+    some (go BState.new [] toks)
   | _ => none
